@@ -421,7 +421,15 @@ func checkC16(c *Ctx, w *World) {
 					good = good && stored
 				}
 			}
-			c.check(good, "C16.close", fmt.Sprintf("goroutine started in %s", fname(fn)), p.ipos(in), "the only goroutine of the package is the monitor, started with a cancellable context whose cancel function is kept in the monitored connection", "a goroutine is started that Close cannot stop")
+			if !good {
+				// a helper goroutine bounded by the call that started it: its body is one select, one case of which receives from
+				// a channel made in the spawning function and closed there by a deferred close (so it ends no later than that call)
+				if ok, why := callBoundedGoroutine(gi, fn); ok {
+					c.ok("C16.close", fmt.Sprintf("goroutine started in %s", fname(fn)), p.ipos(in), why)
+					return
+				}
+			}
+			c.check(good, "C16.close", fmt.Sprintf("goroutine started in %s", fname(fn)), p.ipos(in), "the monitor goroutine is started with a cancellable context whose cancel function is kept in the monitored connection", "a goroutine is started that Close cannot stop")
 		})
 	}
 	c.floor("C16.close:go", ngo, 1)
@@ -570,4 +578,75 @@ func (g *gmectx) errorInfeasible(r *ssa.Return, firstEffect ssa.Instruction, isE
 		}
 	}
 	return false, "no up-front validation loop over the option map rejects empty endpoint lists before the first effect"
+}
+
+// callBoundedGoroutine: go func(){ select { …; case <-done: } }() where done is a local channel of the spawning
+// function that is closed by a deferred close in that function; the goroutine's body does nothing before the select and
+// every select case falls through to the end of the function (no loop).
+func callBoundedGoroutine(gi *ssa.Go, parent *ssa.Function) (bool, string) {
+	cl := calleeOf(&gi.Call).Static
+	if cl == nil || cl.Parent() != parent {
+		return false, ""
+	}
+	if len(loopsOf(cl)) > 0 {
+		return false, ""
+	}
+	var sel *ssa.Select
+	nsel := 0
+	eachInstr(cl, func(in ssa.Instruction) {
+		if x, ok := in.(*ssa.Select); ok {
+			sel = x
+			nsel++
+		}
+	})
+	if sel == nil || nsel != 1 || sel.Block() != cl.Blocks[0] || !sel.Blocking {
+		return false, ""
+	}
+	for _, st := range sel.States {
+		if st.Dir != types.RecvOnly {
+			continue
+		}
+		// the channel is a captured local of the parent …
+		var cell *ssa.Alloc
+		for _, o := range origins(st.Chan) {
+			_ = o
+		}
+		if u, ok := stripConv(st.Chan).(*ssa.UnOp); ok {
+			if fv, isFV := u.X.(*ssa.FreeVar); isFV {
+				if b := freeVarBinding(fv); b != nil {
+					cell, _ = b.(*ssa.Alloc)
+				}
+			}
+		}
+		if cell == nil || cell.Parent() != parent {
+			continue
+		}
+		made := false
+		for _, s := range storesTo(cell) {
+			if _, isMk := s.Val.(*ssa.MakeChan); isMk {
+				made = true
+			} else {
+				made = false
+				break
+			}
+		}
+		if !made {
+			continue
+		}
+		// … closed by a deferred close in the parent, registered no later than the go statement
+		closed := false
+		eachInstr(parent, func(in ssa.Instruction) {
+			d, isD := in.(*ssa.Defer)
+			if !isD || calleeOf(&d.Call).Builtin != "close" {
+				return
+			}
+			if u, ok := stripConv(d.Call.Args[0]).(*ssa.UnOp); ok && u.X == ssa.Value(cell) && (dominatesInstr(d, gi)) {
+				closed = true
+			}
+		})
+		if closed {
+			return true, "helper goroutine bounded by the call that started it: it only waits in one select, one case of which is a channel closed by a deferred close of the spawning function"
+		}
+	}
+	return false, ""
 }
